@@ -200,6 +200,17 @@ CLAIMED = {
     note="Hypotheses are named in the theorems (ConvR, LawfulCmp, JoinLub, Mono, Total, rank); HashMap/VecDeque are modelled as lists; "
          "with force only the weaker >= claim holds, by design.",
     technique="Lean 4 proof of a mirror model (loop invariants) + differential correspondence check"),
+ "C19": dict(
+    category="translation_validation",
+    text="ELF loading is modelled definitionally in Lean from a structured description of the file (what goblin hands to falcon); "
+         "theorems show the model is what the property states (image_exact, perm_bits, arch_named, entries_exact, rebase_uniform, "
+         "link_once_partial). The real loader::Elf / ElfLinker are compared with the model on files produced by an ELF writer (ELF32/64, "
+         "LSB/MSB, five machines, 1-4 PT_LOAD segments, symbol/dynamic/relocation tables, 1-4 linked objects) at four base addresses.",
+    design_ref="DESIGN.md §6 C19",
+    note="goblin's parsing is an external call: its view is checked against the description on every case, and the writer against "
+         "readelf on every run. MIPS GOT relocation words rest on the correspondence only. Overlapping segments and addresses >= 2^64 "
+         "are outside the domain (model and falcon are still compared there).",
+    technique="Lean 4 definitional model + theorems; generated-file correspondence check with a readelf self-test"),
 }
 
 checks = []
